@@ -199,10 +199,10 @@ def withTA (c : IndexCtx) (rid : Nat) (ta : TemplateArgument) : IndexCtx :=
     ((c.setSM (c.symbolMap.addTemplateArgument ta).2).symbolMap.modRecord rid fun rec =>
       { rec with nameToTemplateArg := indexMapInsert rec.nameToTemplateArg ta.name (c.symbolMap.addTemplateArgument ta).1 })
 
-theorem PInv.declareTA {cenv : CEnv} {N : Std.HashMap String Nat} {rid : Nat} {ps : Params} {bv gv : Env} {outer : List Scope} {env : Env} {c : IndexCtx}
-    (h : PInv cenv N rid ps bv gv outer env c) (ta : TemplateArgument) (hname : ta.name ∉ ps.map (·.1))
+theorem PInv.declareTA {cenv : CEnv} {N : Std.HashMap String Nat} {rid : Nat} {ps : Params} {bv gv : Env} {outer : List Scope} {xt : XTab} {env : Env} {c : IndexCtx}
+    (h : PInv cenv N rid ps bv gv outer xt env c) (ta : TemplateArgument) (hname : ta.name ∉ ps.map (·.1))
     (hprim : isPrimTy ta.typ = true) :
-    PInv cenv N rid (ps ++ [(ta.name, ta.typ, ta.hasDefaultValue)]) bv gv outer env (withTA c rid ta) := by
+    PInv cenv N rid (ps ++ [(ta.name, ta.typ, ta.hasDefaultValue)]) bv gv outer xt env (withTA c rid ta) := by
   have hrid : rid < c.symbolMap.recordList.size := by have := h.newest; omega
   have htl : (withTA c rid ta).symbolMap.templateArgList = c.symbolMap.templateArgList.push ta := rfl
   have hrec : ∀ i, i < c.symbolMap.recordList.size →
@@ -238,7 +238,7 @@ theorem PInv.declareTA {cenv : CEnv} {N : Std.HashMap String Nat} {rid : Nat} {p
   have hnew : (withTA c rid ta).symbolMap.templateArg c.symbolMap.templateArgList.size = ta := by
     show (c.symbolMap.templateArgList.push ta)[c.symbolMap.templateArgList.size]! = _
     exact getElem!_push_size _ _
-  refine ⟨?_, h.top, by rw [hsize]; exact h.newest, ?_, ?_, h.trace, h.ntc⟩
+  refine ⟨?_, h.top, by rw [hsize]; exact h.newest, ?_, ?_, h.trace, h.ntc, h.x⟩
   · exact h.k.transport (Nat.le_of_eq hsize.symm) hold hag (Nat.le_refl _) (fun _ _ => rfl) htsz hta (fun _ _ _ => rfl)
   · refine h.exact.transport' (rid + 1) (Nat.lt_succ_self _) (fun i hi => h.k.older i (by omega)) ?_ (Nat.le_refl _)
       (fun _ _ => rfl)
@@ -333,11 +333,11 @@ def coreTemplateArgDecl4 (ps : Params) (n : PTree) : Option Params :=
 section core4
 variable (k : Nat)
 
-theorem args4_step (cenv : CEnv) (N : Std.HashMap String Nat) (rid : Nat) (ps : Params) (bv gv : Env) (outer : List Scope) (env : Env) :
-    ∀ (args : List PTree) (tys : List Ty) (c : IndexCtx), PInv cenv N rid ps bv gv outer env c →
+theorem args4_step (cenv : CEnv) (N : Std.HashMap String Nat) (rid : Nat) (ps : Params) (bv gv : Env) (outer : List Scope) (xt : XTab) (env : Env) :
+    ∀ (args : List PTree) (tys : List Ty) (c : IndexCtx), PInv cenv N rid ps bv gv outer xt env c →
       coreArgs4 (bv ++ (env ++ (ps.env ++ gv))) tys args = true →
       ∃ avs c1, (args.mapM fun a => indexArgValue (mkRec (k + 1)) a).run c = .ok (avs, c1) ∧ PosOK tys avs ∧
-        avs.length = args.length ∧ c1.diagnostics = c.diagnostics ∧ PInv cenv N rid ps bv gv outer env c1 := by
+        avs.length = args.length ∧ c1.diagnostics = c.diagnostics ∧ PInv cenv N rid ps bv gv outer xt env c1 := by
   intro args
   induction args with
   | nil =>
@@ -355,7 +355,7 @@ theorem args4_step (cenv : CEnv) (N : Std.HashMap String Nat) (rid : Nat) (ps : 
       | some v =>
         rw [hpv] at hv
         simp only at hv
-        obtain ⟨vt, c1, hvr, hcast, hd1, hinv1⟩ := init3_value k cenv N rid ps bv gv outer env ty v c hinv hv
+        obtain ⟨vt, c1, hvr, hcast, hd1, hinv1⟩ := init3_value k cenv N rid ps bv gv outer xt env ty v c hinv hv
         obtain ⟨avs, c2, hr2, hpos, hlen, hd2, hinv2⟩ := ih tys c1 hinv1 hrest
         have ha : (indexArgValue (mkRec (k + 1)) a).run c = .ok (some (none, vt, nodeRange a), c1) := by
           unfold indexArgValue
@@ -368,11 +368,11 @@ theorem args4_step (cenv : CEnv) (N : Std.HashMap String Nat) (rid : Nat) (ps : 
         rfl
 
 
-theorem resolveClassRefAsClass_args (cenv : CEnv) (N : Std.HashMap String Nat) (rid : Nat) (ps : Params) (bv gv : Env) (outer : List Scope) (env flds : Env)
-    (cr : PTree) (c : IndexCtx) (hinv : PInv cenv N rid ps bv gv outer env c)
+theorem resolveClassRefAsClass_args (cenv : CEnv) (N : Std.HashMap String Nat) (rid : Nat) (ps : Params) (bv gv : Env) (outer : List Scope) (xt : XTab) (env flds : Env)
+    (cr : PTree) (c : IndexCtx) (hinv : PInv cenv N rid ps bv gv outer xt env c)
     (hchk : coreClassRef4 cenv (bv ++ (env ++ (ps.env ++ gv))) cr = some flds) :
     ∃ cid c1, (resolveClassRefAsClass (mkRec (k + 1)) cr).run c = .ok (some cid, c1) ∧ cid < rid ∧
-      Exact c1.symbolMap cid flds ∧ c1.diagnostics = c.diagnostics ∧ PInv cenv N rid ps bv gv outer env c1 := by
+      Exact c1.symbolMap cid flds ∧ c1.diagnostics = c.diagnostics ∧ PInv cenv N rid ps bv gv outer xt env c1 := by
   obtain ⟨f, frest, hft⟩ : ∃ f rest, c.fileTrace = f :: rest := by
     cases hc : c.fileTrace with
     | nil => exact absurd hc hinv.trace
@@ -426,9 +426,9 @@ theorem resolveClassRefAsClass_args (cenv : CEnv) (N : Std.HashMap String Nat) (
           (((c.setSM (c.symbolMap.addReference (.record cid) ⟨f, se.1, se.2⟩)).symbolMap.record cid).nameToTemplateArg.toList.map
             fun e => (c.setSM (c.symbolMap.addReference (.record cid) ⟨f, se.1, se.2⟩)).symbolMap.templateArg e.2)
           avs (nodeRange cr)).run c1 = .ok ((), c1) ∧
-        Exact c1.symbolMap cid flds0 ∧ c1.diagnostics = c.diagnostics ∧ PInv cenv N rid ps bv gv outer env c1 := by
+        Exact c1.symbolMap cid flds0 ∧ c1.diagnostics = c.diagnostics ∧ PInv cenv N rid ps bv gv outer xt env c1 := by
     intro args h1 h2
-    obtain ⟨avs, c1, hr1, hpos, hlen, hd1, hinv1⟩ := args4_step k cenv N rid ps bv gv outer env args _ _ hinv0 h1
+    obtain ⟨avs, c1, hr1, hpos, hlen, hd1, hinv1⟩ := args4_step k cenv N rid ps bv gv outer xt env args _ _ hinv0 h1
     obtain ⟨cid', g1, g2, g3, g4⟩ := hinv1.k.classes name cps flds0 hcg
     have hcid : cid' = cid := by
       rw [hinv1.ntc] at g1
@@ -472,10 +472,10 @@ theorem resolveClassRefAsClass_args (cenv : CEnv) (N : Std.HashMap String Nat) (
       cases hchk
 
 
-theorem templateArgDecl4_step (cenv : CEnv) (N : Std.HashMap String Nat) (n : PTree) (rid : Nat) (ps ps' : Params) (gv : Env) (outer : List Scope)
-    (c c' : IndexCtx) (hinv : PInv cenv N rid ps [] gv outer [] c) (hchk : coreTemplateArgDecl4 ps n = some ps')
+theorem templateArgDecl4_step (cenv : CEnv) (N : Std.HashMap String Nat) (n : PTree) (rid : Nat) (ps ps' : Params) (gv : Env) (outer : List Scope) (xt : XTab)
+    (c c' : IndexCtx) (hinv : PInv cenv N rid ps [] gv outer xt [] c) (hchk : coreTemplateArgDecl4 ps n = some ps')
     (hrun : (indexTemplateArgDecl (mkRec (k + 1)) n).run c = .ok ((), c')) :
-    c'.diagnostics = c.diagnostics ∧ PInv cenv N rid ps' [] gv outer [] c' := by
+    c'.diagnostics = c.diagnostics ∧ PInv cenv N rid ps' [] gv outer xt [] c' := by
   obtain ⟨f, rest, hft⟩ : ∃ f rest, c.fileTrace = f :: rest := by
     cases hc : c.fileTrace with
     | nil => exact absurd hc hinv.trace
@@ -533,7 +533,7 @@ theorem templateArgDecl4_step (cenv : CEnv) (N : Std.HashMap String Nat) (n : PT
       by_cases hci : coreInit2 (Params.env (ps ++ [(name, ty, true)])) ty v = true
       · simp only [hci, if_true] at hchk
         cases hchk
-        obtain ⟨vt, c1, hvr, hcast, hd, hi⟩ := init3_value k cenv N rid _ [] gv outer [] ty v _ hinv2 (coreInit2_mono_right _ gv ty v hci)
+        obtain ⟨vt, c1, hvr, hcast, hd, hi⟩ := init3_value k cenv N rid _ [] gv outer xt [] ty v _ hinv2 (coreInit2_mono_right _ gv ty v hci)
         simp only [StateT.run_bind, hvr, Except.ok_bind, canBeCastedTo_run, hcast, Bool.not_true, Bool.false_eq_true,
           if_false] at hrun
         cases hrun
@@ -550,11 +550,11 @@ def coreTemplateArgs4 : Params → List PTree → Option Params
     | some ps' => coreTemplateArgs4 ps' rest
     | none => none
 
-theorem templateArgList4_step (cenv : CEnv) (N : Std.HashMap String Nat) (tl : PTree) (rid : Nat) (ps ps' : Params) (gv : Env) (outer : List Scope)
-    (c c' : IndexCtx) (hinv : PInv cenv N rid ps [] gv outer [] c)
+theorem templateArgList4_step (cenv : CEnv) (N : Std.HashMap String Nat) (tl : PTree) (rid : Nat) (ps ps' : Params) (gv : Env) (outer : List Scope) (xt : XTab)
+    (c c' : IndexCtx) (hinv : PInv cenv N rid ps [] gv outer xt [] c)
     (hchk : coreTemplateArgs4 ps (Ast.templateArgListArgs tl) = some ps')
     (hrun : (indexTemplateArgList (mkRec (k + 1)) tl).run c = .ok ((), c')) :
-    c'.diagnostics = c.diagnostics ∧ PInv cenv N rid ps' [] gv outer [] c' := by
+    c'.diagnostics = c.diagnostics ∧ PInv cenv N rid ps' [] gv outer xt [] c' := by
   unfold indexTemplateArgList at hrun
   obtain ⟨u, c'', hloop, hpure⟩ := IxM.run_bind_ok hrun
   simp only [StateT.run_pure] at hpure
@@ -578,7 +578,7 @@ theorem templateArgList4_step (cenv : CEnv) (N : Std.HashMap String Nat) (tl : P
     | none => rw [hd] at hchk; cases hchk
     | some ps1 =>
       rw [hd] at hchk
-      obtain ⟨q1, hinv1⟩ := templateArgDecl4_step k cenv N d rid ps ps1 gv outer c c1 hinv hd j1
+      obtain ⟨q1, hinv1⟩ := templateArgDecl4_step k cenv N d rid ps ps1 gv outer xt c c1 hinv hd j1
       obtain ⟨q2, r⟩ := ih ps1 c1 hinv1 hchk hloop
       exact ⟨q2.trans q1, r⟩
 
@@ -590,11 +590,11 @@ def coreParents4 (cenv : CEnv) (pe : Env) : Env → List PTree → Option Env
     | some flds => coreParents4 cenv pe (env ++ flds) rest
     | none => none
 
-theorem parents4_step (cenv : CEnv) (N : Std.HashMap String Nat) (pcl : PTree) (rid : Nat) (ps : Params) (gv : Env) (outer : List Scope) (env env' : Env)
-    (c c' : IndexCtx) (hinv : PInv cenv N rid ps [] gv outer env c)
+theorem parents4_step (cenv : CEnv) (N : Std.HashMap String Nat) (pcl : PTree) (rid : Nat) (ps : Params) (gv : Env) (outer : List Scope) (xt : XTab) (env env' : Env)
+    (c c' : IndexCtx) (hinv : PInv cenv N rid ps [] gv outer xt env c)
     (hchk : coreParents4 cenv (ps.env ++ gv) env (Ast.parentClassListClasses pcl) = some env')
     (hrun : (indexParentClassList (mkRec (k + 1)) pcl).run c = .ok ((), c')) :
-    c'.diagnostics = c.diagnostics ∧ PInv cenv N rid ps [] gv outer env' c' := by
+    c'.diagnostics = c.diagnostics ∧ PInv cenv N rid ps [] gv outer xt env' c' := by
   unfold indexParentClassList at hrun
   obtain ⟨r0, c0, h0, hrun1⟩ := IxM.run_bind_ok hrun
   rw [currentRecordId_run, hinv.currentRecordId] at h0
@@ -620,7 +620,7 @@ theorem parents4_step (cenv : CEnv) (N : Std.HashMap String Nat) (pcl : PTree) (
     | some flds =>
       rw [hp] at hchk
       simp only at hchk
-      obtain ⟨cid, c2, hres, hlt, hex, hd, hinv2⟩ := resolveClassRefAsClass_args k cenv N rid ps [] gv outer env flds cr c hinv hp
+      obtain ⟨cid, c2, hres, hlt, hex, hd, hinv2⟩ := resolveClassRefAsClass_args k cenv N rid ps [] gv outer xt env flds cr c hinv hp
       have hne : (cid == rid) = false := by simp; omega
       simp only [StateT.run_bind, hres, Except.ok_bind, hne, Bool.false_eq_true, if_false, recordMut_run,
         StateT.run_pure] at h1
@@ -641,10 +641,10 @@ def coreRecordBody4 (cenv : CEnv) (pe : Env) (rb : PTree) : Option Env :=
       | some b => coreItems3 pe env (Ast.bodyItems b)
     | none => none
 
-theorem recordBody4_step (cenv : CEnv) (N : Std.HashMap String Nat) (rb : PTree) (rid : Nat) (ps : Params) (outer : List Scope) (env' : Env)
-    (c c' : IndexCtx) (hinv : PInv cenv N rid ps [] [] outer [] c) (hchk : coreRecordBody4 cenv ps.env rb = some env')
+theorem recordBody4_step (cenv : CEnv) (N : Std.HashMap String Nat) (rb : PTree) (rid : Nat) (ps : Params) (outer : List Scope) (xt : XTab) (env' : Env)
+    (c c' : IndexCtx) (hinv : PInv cenv N rid ps [] [] outer xt [] c) (hchk : coreRecordBody4 cenv ps.env rb = some env')
     (hrun : (indexRecordBody (mkRec (k + 1)) rb).run c = .ok ((), c')) :
-    c'.diagnostics = c.diagnostics ∧ PInv cenv N rid ps [] [] outer env' c' := by
+    c'.diagnostics = c.diagnostics ∧ PInv cenv N rid ps [] [] outer xt env' c' := by
   unfold coreRecordBody4 at hchk
   unfold indexRecordBody at hrun
   cases hp : Ast.recordBodyParentClassList rb with
@@ -658,7 +658,7 @@ theorem recordBody4_step (cenv : CEnv) (N : Std.HashMap String Nat) (rb : PTree)
       rw [hps] at hchk
       simp only at hchk
       obtain ⟨_, c1, h1, hrun⟩ := IxM.run_bind_ok hrun
-      obtain ⟨hd1, hinv1⟩ := parents4_step k cenv N pcl rid ps [] outer [] env c c1 hinv (by rw [List.append_nil]; exact hps) h1
+      obtain ⟨hd1, hinv1⟩ := parents4_step k cenv N pcl rid ps [] outer xt [] env c c1 hinv (by rw [List.append_nil]; exact hps) h1
       cases hb : Ast.recordBodyBody rb with
       | none => rw [hb] at hrun hchk; cases hrun; cases hchk; exact ⟨hd1, hinv1⟩
       | some b =>
@@ -668,7 +668,7 @@ theorem recordBody4_step (cenv : CEnv) (N : Std.HashMap String Nat) (rb : PTree)
         obtain ⟨u, c2, h2, h3⟩ := IxM.run_bind_ok hrun
         simp only [StateT.run_pure] at h3
         cases h3
-        obtain ⟨hd2, hinv2⟩ := items3_step k cenv N _ rid ps outer env env' c1 c' u hinv1 hchk h2
+        obtain ⟨hd2, hinv2⟩ := items3_step k cenv N _ rid ps outer xt env env' c1 c' u hinv1 hchk h2
         exact ⟨hd2.trans hd1, hinv2⟩
 
 
@@ -693,7 +693,7 @@ def coreClass4 (cenv : CEnv) (n : PTree) : Option CEnv :=
   | none => none
 
 /-- `class`, for any checker `chk` of record bodies -/
-def coreClassG (chk : CEnv → Params → PTree → Option Env) (cenv : CEnv) (n : PTree) : Option CEnv :=
+def coreClassG (chk : CEnv → XTab → Params → PTree → Option Env) (cenv : CEnv) (xt : XTab) (n : PTree) : Option CEnv :=
   match Ast.className n with
   | some nameNode =>
     match Ast.identifierValue nameNode, Ast.identifierRange nameNode with
@@ -705,7 +705,7 @@ def coreClassG (chk : CEnv → Params → PTree → Option Env) (cenv : CEnv) (n
         match Ast.classRecordBody n with
         | none => some ((name, some (ps, [])) :: cenv)
         | some rb =>
-          match chk ((name, none) :: cenv) ps rb with
+          match chk ((name, none) :: cenv) ((name, none) :: xt) ps rb with
           | some env => some ((name, some (ps, env)) :: cenv)
           | none => none
       | none => none
@@ -713,18 +713,24 @@ def coreClassG (chk : CEnv → Params → PTree → Option Env) (cenv : CEnv) (n
   | none => none
 
 theorem coreClass4_eq (cenv : CEnv) (n : PTree) :
-    coreClass4 cenv n = coreClassG (fun ce ps rb => coreRecordBody4 ce ps.env rb) cenv n := rfl
+    coreClass4 cenv n = coreClassG (fun ce _ ps rb => coreRecordBody4 ce ps.env rb) cenv [] n := rfl
 
-theorem indexClassG_step (chk : CEnv → Params → PTree → Option Env) (gv : Env)
-    (hbody : ∀ (cenv' : CEnv) (ps : Params) (rb : PTree) (env : Env) (N : Std.HashMap String Nat) (rid : Nat)
+/-- the name of a `class` statement -/
+def classNameOf (n : PTree) : Option String := (Ast.className n).bind Ast.identifierValue
+
+theorem indexClassG_step (chk : CEnv → XTab → Params → PTree → Option Env) (gv : Env)
+    (hbody : ∀ (cenv' : CEnv) (xt' : XTab) (ps : Params) (rb : PTree) (env : Env) (N : Std.HashMap String Nat) (rid : Nat)
       (outer : List Scope) (c6 c7 : IndexCtx),
-      PInv cenv' N rid ps [] gv outer [] c6 → chk cenv' ps rb = some env →
+      PInv cenv' N rid ps [] gv outer xt' [] c6 → chk cenv' xt' ps rb = some env →
       (indexRecordBody (mkRec (k + 1)) rb).run c6 = .ok ((), c7) →
-      c7.diagnostics = c6.diagnostics ∧ ∃ bv, PInv cenv' N rid ps bv gv outer env c7)
-    (cenv cenv' : CEnv) (n : PTree) (c c' : IndexCtx) (hT : TabInv cenv c)
-    (houter : OuterOK c.symbolMap c.scopes.scopes gv)
-    (hchk : coreClassG chk cenv n = some cenv') (hrun : (indexClass (mkRec (k + 1)) n).run c = .ok ((), c')) :
-    c'.diagnostics = c.diagnostics ∧ TabInv cenv' c' ∧ c'.scopes.scopes = c.scopes.scopes := by
+      c7.diagnostics = c6.diagnostics ∧ ∃ bv, PInv cenv' N rid ps bv gv outer xt' env c7)
+    (cenv cenv' : CEnv) (xt : XTab) (n : PTree) (c c' : IndexCtx) (hT : TabInv cenv c)
+    (houter : OuterOK c.symbolMap c.scopes.scopes gv) (hxt : XInv xt c.symbolMap.recordList.size c.symbolMap)
+    (hchk : coreClassG chk cenv xt n = some cenv') (hrun : (indexClass (mkRec (k + 1)) n).run c = .ok ((), c')) :
+    c'.diagnostics = c.diagnostics ∧ TabInv cenv' c' ∧ c'.scopes.scopes = c.scopes.scopes ∧
+      (∀ name, classNameOf n = some name →
+        XInv ((name, some c.symbolMap.recordList.size) :: xt) c'.symbolMap.recordList.size c'.symbolMap) ∧
+      c'.symbolMap.recordList.size = c.symbolMap.recordList.size + 1 := by
   obtain ⟨f, rest, hft⟩ : ∃ f rest, c.fileTrace = f :: rest := by
     cases hc : c.fileTrace with
     | nil => exact absurd hc hT.trace
@@ -778,7 +784,17 @@ theorem indexClassG_step (chk : CEnv → Params → PTree → Option Env) (gv : 
       rw [Std.HashMap.getElem?_insert]
       have : (name == cname) = false := by simpa using fun e' => e e'.symm
       simp [this]
-  obtain ⟨q3, hinv3⟩ := PInv.ofOpen (cenv' := (name, none) :: cenv) hT houter _ rfl rfl rfl ho hcls h3
+  obtain ⟨q3, hinv3⟩ := PInv.ofOpen (cenv' := (name, none) :: cenv) hT houter (xt := xt) (xt' := (name, none) :: xt) hxt
+    (fun nm id hg => by
+      rw [XTab.get_cons] at hg
+      by_cases e : nm = name
+      · rw [if_pos e] at hg; cases hg
+      · rw [if_neg e] at hg
+        refine ⟨hg, ?_⟩
+        simp only [IndexCtx.setSM_symbolMap, t4]
+        rw [Std.HashMap.getElem?_insert]
+        have : (name == nm) = false := by simpa using fun e' => e e'.symm
+        simp [this]) _ rfl rfl rfl ho hcls h3
   have hN : (c.setSM (c.symbolMap.addRecord { name := name, kind := .cls, defineLoc := ⟨f, se.1, se.2⟩ } true).2).symbolMap.nameToClass[name]? =
       some c.symbolMap.recordList.size := by
     simp only [IndexCtx.setSM_symbolMap, t4]
@@ -786,27 +802,46 @@ theorem indexClassG_step (chk : CEnv → Params → PTree → Option Env) (gv : 
   have hclose : ∀ (ps : Params) (bv gv : Env) (env : Env) (c4 : IndexCtx), c4.diagnostics = c.diagnostics →
       PInv ((name, none) :: cenv)
         (c.setSM (c.symbolMap.addRecord { name := name, kind := .cls, defineLoc := ⟨f, se.1, se.2⟩ } true).2).symbolMap.nameToClass
-        c.symbolMap.recordList.size ps bv gv c.scopes.scopes env c4 →
+        c.symbolMap.recordList.size ps bv gv c.scopes.scopes ((name, none) :: xt) env c4 →
       scopesPop.run c4 = .ok ((), c') → c'.diagnostics = c.diagnostics ∧ TabInv ((name, some (ps, env)) :: cenv) c' ∧
-        c'.scopes.scopes = c.scopes.scopes := by
+        c'.scopes.scopes = c.scopes.scopes ∧
+        (∀ name', classNameOf n = some name' →
+          XInv ((name', some c.symbolMap.recordList.size) :: xt) c'.symbolMap.recordList.size c'.symbolMap) ∧
+        c'.symbolMap.recordList.size = c.symbolMap.recordList.size + 1 := by
     intro ps bv gv env c4 q4 hinv4 h5
     have s5 := scopesPop_eqs h5
-    refine ⟨s5.1.trans q4, hinv4.close ?_ s5.2.2.1 s5.2.1, hinv4.popped h5⟩
-    intro cname flds hg
-    rw [CEnv.get_cons] at hg ⊢
-    by_cases e : cname = name
-    · rw [if_pos e] at hg
-      cases hg
-      exact Or.inr ⟨by rw [e]; exact hN, rfl⟩
-    · rw [if_neg e] at hg ⊢
-      exact Or.inl hg
+    refine ⟨s5.1.trans q4, hinv4.close ?_ s5.2.2.1 s5.2.1, hinv4.popped h5, ?_, by rw [s5.2.2.1, ← hinv4.newest]⟩
+    · intro cname flds hg
+      rw [CEnv.get_cons] at hg ⊢
+      by_cases e : cname = name
+      · rw [if_pos e] at hg
+        cases hg
+        exact Or.inr ⟨by rw [e]; exact hN, rfl⟩
+      · rw [if_neg e] at hg ⊢
+        exact Or.inl hg
+    · intro name' hn'
+      have : name' = name := by
+        unfold classNameOf at hn'
+        rw [hnn] at hn'
+        simp only [Option.bind_some, hiv, Option.some.injEq] at hn'
+        exact hn'.symm
+      subst this
+      refine hinv4.closeX ?_ s5.2.2.1
+      intro nm id hg
+      rw [XTab.get_cons] at hg ⊢
+      by_cases e : nm = name'
+      · rw [if_pos e] at hg
+        cases hg
+        exact Or.inr ⟨by rw [e]; exact hN, rfl⟩
+      · rw [if_neg e] at hg ⊢
+        exact Or.inl hg
   -- the template parameters
   have hhead : ∃ ps c3', (match Ast.classTemplateArgList n with
         | some tl => coreTemplateArgs4 [] (Ast.templateArgListArgs tl)
         | none => some []) = some ps ∧ c3'.diagnostics = c.diagnostics ∧
       PInv ((name, none) :: cenv)
         (c.setSM (c.symbolMap.addRecord { name := name, kind := .cls, defineLoc := ⟨f, se.1, se.2⟩ } true).2).symbolMap.nameToClass
-        c.symbolMap.recordList.size ps [] gv c.scopes.scopes [] c3' ∧
+        c.symbolMap.recordList.size ps [] gv c.scopes.scopes ((name, none) :: xt) [] c3' ∧
       (match Ast.classRecordBody n with
         | some body => do
           indexRecordBody (mkRec (k + 1)) body
@@ -824,7 +859,7 @@ theorem indexClassG_step (chk : CEnv → Params → PTree → Option Env) (gv : 
       cases hps : coreTemplateArgs4 [] (Ast.templateArgListArgs tl) with
       | none => rw [hps] at hchk; cases hchk
       | some ps =>
-        obtain ⟨q, hi⟩ := templateArgList4_step k _ _ tl _ [] ps gv _ c3 c3' hinv3 hps h3'
+        obtain ⟨q, hi⟩ := templateArgList4_step k _ _ tl _ [] ps gv _ _ c3 c3' hinv3 hps h3'
         cases hb : Ast.classRecordBody n <;> rw [hb] at hrun <;> exact ⟨ps, c3', hps, q.trans q3, hi, hrun⟩
   obtain ⟨ps, c3', hps, q3', hinv3', hrun'⟩ := hhead
   rw [hps] at hchk
@@ -838,13 +873,13 @@ theorem indexClassG_step (chk : CEnv → Params → PTree → Option Env) (gv : 
   | some rb =>
     rw [hb] at hrun' hchk
     simp only at hrun' hchk
-    cases hrb : chk ((name, none) :: cenv) ps rb with
+    cases hrb : chk ((name, none) :: cenv) ((name, none) :: xt) ps rb with
     | none => rw [hrb] at hchk; cases hchk
     | some env =>
       rw [hrb] at hchk
       cases hchk
       obtain ⟨_, c4, h4, hrun'⟩ := IxM.run_bind_ok hrun'
-      obtain ⟨q4, bv4, hinv4⟩ := hbody _ ps rb env _ _ _ c3' c4 hinv3' hrb h4
+      obtain ⟨q4, bv4, hinv4⟩ := hbody _ _ ps rb env _ _ _ c3' c4 hinv3' hrb h4
       exact hclose ps bv4 gv env c4 (q4.trans q3') hinv4 hrun'
 
 theorem indexClass4_step (cenv cenv' : CEnv) (n : PTree) (c c' : IndexCtx) (hT : TabInv cenv c)
@@ -852,9 +887,9 @@ theorem indexClass4_step (cenv cenv' : CEnv) (n : PTree) (c c' : IndexCtx) (hT :
     c'.diagnostics = c.diagnostics ∧ TabInv cenv' c' := by
   rw [coreClass4_eq] at hchk
   have h := indexClassG_step k _ []
-    (fun cenv' ps rb env N rid outer c6 c7 hinv hrb h7 =>
-      let ⟨q, hi⟩ := recordBody4_step k cenv' N rb rid ps outer env c6 c7 hinv hrb h7
-      ⟨q, [], hi⟩) cenv cenv' n c c' hT (OuterOK.nil _ _) hchk hrun
+    (fun cenv' xt' ps rb env N rid outer c6 c7 hinv hrb h7 =>
+      let ⟨q, hi⟩ := recordBody4_step k cenv' N rb rid ps outer xt' env c6 c7 hinv hrb h7
+      ⟨q, [], hi⟩) cenv cenv' [] n c c' hT (OuterOK.nil _ _) (XInv.nil _ _) hchk hrun
   exact ⟨h.1, h.2.1⟩
 
 /-- `def d [: parents] { … }` of the fourth core (any name, or anonymous) -/
@@ -866,11 +901,13 @@ def coreDef4 (cenv : CEnv) (n : PTree) : Bool :=
 theorem indexDef4_step (cenv : CEnv) (n : PTree) (c c' : IndexCtx) (hT : TabInv cenv c) (hchk : coreDef4 cenv n = true)
     (hrun : (indexDef (mkRec (k + 1)) n).run c = .ok ((), c')) : c'.diagnostics = c.diagnostics ∧ TabInv cenv c' := by
   suffices h : c'.diagnostics = c.diagnostics ∧ TabInv cenv c' ∧
-      ((Ast.defRecordBody n).isSome = true → c'.scopes.scopes = c.scopes.scopes) from ⟨h.1, h.2.1⟩
-  refine indexDefG_step k cenv (coreRecordBody4 cenv []) []
+      ((Ast.defRecordBody n).isSome = true → c'.scopes.scopes = c.scopes.scopes) ∧
+      XInv [] c'.symbolMap.recordList.size c'.symbolMap ∧
+      c'.symbolMap.recordList.size = c.symbolMap.recordList.size + 1 from ⟨h.1, h.2.1⟩
+  refine indexDefG_step k cenv (coreRecordBody4 cenv []) [] []
     (fun rb env N rid outer c6 c7 hinv hrb h7 =>
-      let ⟨q, hi⟩ := recordBody4_step k cenv N rb rid [] outer env c6 c7 hinv hrb h7
-      ⟨q, [], hi⟩) n c c' hT (OuterOK.nil _ _) ?_ hrun
+      let ⟨q, hi⟩ := recordBody4_step k cenv N rb rid [] outer [] env c6 c7 hinv hrb h7
+      ⟨q, [], hi⟩) n c c' hT (OuterOK.nil _ _) (XInv.nil _ _) ?_ hrun
   intro rb hb
   unfold coreDef4 at hchk
   rw [hb] at hchk
